@@ -324,6 +324,31 @@ ASSUME = ["text, attribute values and names are valid UTF-8 (StrTendril / LocalN
           "template contents are not serialized (RcDom's Serialize does not enter them)"]
 
 
+def call_seq(rng):
+    """a random (mostly unbalanced) call sequence for the Serializer trait"""
+    names = ANY_NAMES
+    out = []
+    for _ in range(rng.randint(0, 7)):
+        k = rng.random()
+        if k < 0.35:
+            attrs = []
+            for an in rng.sample(ATTR_NAMES, rng.choice([0, 0, 1])):
+                attrs += [rng.choice(["-", "-", "x", "N"]), hx(an), hx(adv_string(rng, 3))]
+            out += ["s", rng.choice(["h", "h", "s", "m"]), hx(rng.choice(names)), str(len(attrs) // 3)] + attrs
+        elif k < 0.65:
+            out += ["e", rng.choice(["h", "h", "s"]), hx(rng.choice(names))]
+        elif k < 0.85:
+            out += ["t", hx(adv_string(rng, 4))]
+        elif k < 0.92:
+            out += ["c", hx(adv_string(rng, 3))]
+        elif k < 0.96:
+            out += ["d", hx("html")]
+        else:
+            out += ["p", hx("x"), hx(adv_string(rng, 3))]
+    scope = rng.choice(["i", "n", "h:" + hx(rng.choice(names)), "s:" + hx(rng.choice(names))])
+    return "Q %d %d %s %s" % (rng.randrange(2), rng.randrange(2), scope, " ".join(out))
+
+
 def judge_tree(scr, t, f, is_vocab):
     """f = the six harness fields for the tree t; returns ([(kind, why, class)], number of elements judged)"""
     res = []
@@ -449,9 +474,9 @@ def run(ck):
         strings = [(rp["attr"], rp["string"])] if "string" in rp else []
         vtrees = [(rp["scripting"], tuple_tree(rp["tree"]))] if rp.get("what_kind") == "roundtrip" else []
         atrees = [(rp["scripting"], tuple_tree(rp["tree"]))] if rp.get("what_kind") == "tree" else []
-        htmls = [(rp["scripting"], rp["ctx"], rp["html"])] if "html" in rp else []
+        htmls = [(rp["scripting"], rp["ctx"], rp["html"])] if "ctx" in rp else []
     else:
-        ns_, nv, na, nh = (40000, 15000, 8000, 8000) if ck.quick else (400000, 150000, 80000, 80000)
+        ns_, nv, na, nh = (40000, 15000, 8000, 8000) if ck.quick else (1200000, 450000, 240000, 240000)
         strings = []
         corpus = os.path.join(ROOT, "corpus", "c07_strings.txt")
         if os.path.exists(corpus):
@@ -469,6 +494,20 @@ def run(ck):
                   for c2 in [1.0 if rng.random() < 0.1 else 0.0 for _ in range(na)]]
         htmls = [(rng.randrange(2), rng.choice(["-", "-", "h:div", "h:body", "s:svg", "m:math", "h:template", "h:table"]),
                   rand_html(rng)) for _ in range(nh)]
+
+    # ---------- direct call sequences (correspondence only: empty-stack arms, create_missing_parent)
+    ql = [] if ck.replay else [call_seq(rng) for _ in range(4000 if ck.quick else 100000)]
+    impl_q = ck.run_lines(impl, [], ql)
+    model_q = ck.run_lines(model, [variant], ql)
+    dis_q = 0
+    q_panics = 0
+    for c, a, b in zip(ql, impl_q, model_q):
+        q_panics += a == "!"
+        if a != b:
+            dis_q += 1
+            if dis_q <= 3:
+                ck.broken.append("correspondence serializer model(%s) vs HtmlSerializer on call sequence %s: impl %s model %s"
+                                 % (variant, c, a[:200], b[:200]))
 
     # ---------- (a) escaping
     wl = ["W %d %s" % (m, hx(s)) for m, s in strings]
@@ -566,7 +605,7 @@ def run(ck):
                 why2 = next((w for k, w, c in (judge_tree(scr, small, f2, is_vocab)[0] if len(f2) == 6 else []) if k == kind), why)
                 ck.violation(why2, {"kind": "failing-input", "what_kind": "roundtrip" if is_vocab else "tree",
                                     "scripting": scr, "tree": small, "unshrunk_tree": t if small is not t else None,
-                                    "html": (ser_whatwg(small, None, bool(scr))).decode("utf8", "replace")}, case_class=cls)
+                                    "rendering": (ser_whatwg(small, None, bool(scr))).decode("utf8", "replace")}, case_class=cls)
     rt_fail, rt_known = counts.get(("roundtrip", False), 0), counts.get(("roundtrip", True), 0)
     ser_fail, ser_known = counts.get(("whatwg", False), 0), counts.get(("whatwg", True), 0)
     io_fail, io_known = counts.get(("inner-outer", False), 0), counts.get(("inner-outer", True), 0)
@@ -595,7 +634,7 @@ def run(ck):
                              case_class=cls)
 
     ck.cov.update({
-        "evaluations": len(strings) + len(tl) + len(hl),
+        "evaluations": len(strings) + len(tl) + len(hl) + len(ql),
         "distinct_nontrivial": len(nontrivial) + len(vtrees),
         "rule": "strings: every ASCII char and every U+0080..U+00BF char alone and embedded, both modes, + random strings "
                 "over a %d-symbol pool (specials, entities-look-alikes, ]]>, --, 2/3/4-byte chars, runs of 15..100 bytes "
@@ -611,7 +650,7 @@ def run(ck):
         "escape_failures": esc_fail, "roundtrip_failures": rt_fail, "inner_outer_failures": io_fail,
         "whatwg_serialization_failures": ser_fail,
         "known_finding_hits": {"escape": esc_known, "roundtrip": rt_known, "inner_outer": io_known, "serialization": ser_known},
-        "correspondence_disagreements": dis_w + dis_t, "spec_vs_reference_disagreements": specdis,
+        "correspondence_disagreements": dis_w + dis_t + dis_q, "call_sequences": len(ql), "call_sequences_panicking": q_panics, "spec_vs_reference_disagreements": specdis,
         "explanation": "Props/C07.v proves the escaping and inner/outer statements for the model (all strings, all trees); "
                        "the model is tied to serialize/mod.rs + rcdom by running both on the same strings / trees; the "
                        "WHATWG-escaping, round-trip and inner/outer oracles are evaluated on the implementation's outputs.",
